@@ -19,6 +19,7 @@
 #include <iterator>
 #include <list>
 #include <map>
+#include <new>
 #include <sstream>
 #include <string>
 #include <vector>
@@ -33,6 +34,7 @@ struct ledger_t
   unsigned bad_dealloc = 0, zero_alloc = 0;
 };
 ledger_t *g_ledger = nullptr;
+long g_fail_alloc = 0; // > 0: the g_fail_alloc-th allocation from now on throws std::bad_alloc
 
 template <class T>
 struct ledger_alloc
@@ -45,6 +47,8 @@ struct ledger_alloc
   }
   T *allocate(std::size_t n)
   {
+    if (g_fail_alloc > 0 && --g_fail_alloc == 0) // failpoint: this allocation fails
+      throw std::bad_alloc();
     T *p = std::allocator<T>{}.allocate(n);
     if (g_ledger)
     {
@@ -292,6 +296,13 @@ struct rv_runner
         std::size_t const pos = n ? g.below(n + 1) : 0;
         bool const inplace1 = r.size() + 1 <= r.capacity();
         unsigned op = static_cast<unsigned>(g.below(20));
+        // failpoint: in one step of eight the first or second allocation fails. As for std::vector ([vector.modifiers]:
+        // an exception not thrown by T or by an iterator has no effects) the vector must then be what it was before
+        // the call: the shadow is only updated after the real call returned.
+        g_fail_alloc = g.chance(1, 8) ? static_cast<long>(g.below(2)) + 1 : 0;
+        SV input_src; // the source of an input-iterator insert (see the catch block)
+        try
+        {
         switch (op)
         {
         case 0:
@@ -445,6 +456,7 @@ struct rv_runner
             VF_COUNT("rv/insert_input/empty-range");
           else
             VF_COUNT("rv/insert_input/nonempty");
+          input_src = src;
           r.insert(r.begin() + static_cast<std::ptrdiff_t>(pos), input_it<T>{&src, 0}, input_it<T>{&src, src.size()});
           s.insert(s.begin() + static_cast<std::ptrdiff_t>(pos), src.begin(), src.end());
           compare(r, s, "insert-input-range");
@@ -610,6 +622,26 @@ struct rv_runner
         }
         break;
         }
+        g_fail_alloc = 0;
+        }
+        catch (std::bad_alloc const &)
+        {
+          g_fail_alloc = 0;
+          vf::extend_case("!bad_alloc");
+          vf::count("rv/alloc-failure/op" + std::to_string(op), 1);
+          VF_COUNT("rv/alloc-failure/any");
+          if (op == 9 && r.size() != s.size())
+          {
+            // a range of single-pass iterators can only be inserted element by element (std::vector does the same): the
+            // elements inserted before the failure stay. Accepted: the first k elements of the source at the position.
+            std::size_t const k = r.size() - s.size();
+            if (r.size() > s.size() && k < input_src.size())
+              s.insert(s.begin() + static_cast<std::ptrdiff_t>(pos), input_src.begin(), input_src.begin() + static_cast<std::ptrdiff_t>(k));
+            VF_COUNT("rv/alloc-failure/input-range-partly-inserted");
+          }
+          compare(r, s, "after-allocation-failure");
+          compare(r2, s2, "after-allocation-failure-other");
+        }
       }
       vf::note_distinct(vf::hash_str(vf::current_case()));
       vf::count_max("max/rv/size", s.size());
@@ -717,8 +749,19 @@ void buffer_histories(std::uint64_t total)
             VF_COUNT("buf/resize_write_area/shrink-or-same");
           if (!model.empty() && n > wsize)
             VF_COUNT("buf/resize_write_area/grow-with-read-data");
-          b.resize_write_area(n);
-          wsize = n;
+          // failpoint: the allocation of the larger block fails in one of six calls; the buffer must be what it was
+          g_fail_alloc = g.chance(1, 6) ? 1 : 0;
+          try
+          {
+            b.resize_write_area(n);
+            wsize = n;
+          }
+          catch (std::bad_alloc const &)
+          {
+            vf::extend_case("!bad_alloc");
+            VF_COUNT("buf/resize_write_area/allocation-failed");
+          }
+          g_fail_alloc = 0;
           check(b, model, wsize, "resize_write_area");
         }
         break;
@@ -1029,7 +1072,7 @@ void read_from_cases()
 
 void body()
 {
-  for (char const *b : {"buf/read_from", "buf/read_from_opt/success", "buf/read_from_opt/failure", "dynamic_array/sizes"})
+  for (char const *b : {"rv/alloc-failure/any", "buf/resize_write_area/allocation-failed", "buf/read_from", "buf/read_from_opt/success", "buf/read_from_opt/failure", "dynamic_array/sizes"})
     vf::require_bucket(b);
   for (char const *b :
        {"rv/ctor/default", "rv/ctor/count", "rv/ctor/forward-range", "rv/ctor/input-range", "rv/ctor/initializer-list",
